@@ -67,7 +67,7 @@ def gen_pipeline(rng, idx, backends):
         tables.append(rows)
     specs = []
     pool = ["jw_first", "lev_sur", "exact_city_tf", "amount", "dl_sur", "jaro_first", "dist_fn", "name_cmp", "exact_dob", "km", "lev_dob", "city_custom",
-            "custom_sql", "custom_sql"]
+            "custom_sql"]
     rng.shuffle(pool)
     col_of = {"jw_first": "first_name", "jaro_first": "first_name", "name_cmp": "first_name", "lev_sur": "surname", "dl_sur": "surname",
               "dist_fn": "surname", "exact_dob": "dob", "lev_dob": "dob", "exact_city_tf": "city", "city_custom": "city"}
@@ -78,7 +78,7 @@ def gen_pipeline(rng, idx, backends):
         used.add(col_of.get(c, c))
         chosen.append(c)
     chosen = chosen[: rng.randint(2, 4)]
-    if use_fs:
+    if use_fs and "custom_sql" not in chosen:
         chosen = ["fs"] + [c for c in chosen if c not in ("jw_first", "lev_sur", "dl_sur", "jaro_first", "dist_fn", "name_cmp")][:2]
     if "sqlite" in backends and "km" in chosen and not _sqlite_has_trig():
         chosen.remove("km")
@@ -387,7 +387,11 @@ def correspondence(ctx: Ctx, backends):
             # the same pipeline must fail on the other backends too (same exception class is not required)
             for b in backends[1:]:
                 try:
-                    run_backend(case, b)
+                    oth = run_backend(case, b)
+                    if "logarithm of zero" in str(e) and (underflow_range(oth) or any(x is not True for x in oth["em_sessions"])):
+                        # same Appendix A hazard as below: which statement first meets the exact 0 produced by underflow is engine noise
+                        ctx.hist("skipped_underflow_degenerate_em", b)
+                        continue
                     ctx.violation(f"pipeline fails on duckdb ({type(e).__name__}) but succeeds on {b}",
                                   {"case": case, "implementation": f"{b}: success", "specification": f"duckdb: {e!r}"[:300]},
                                   {"dialect": b, "asymmetric_failure": True})
